@@ -124,6 +124,7 @@ class Engine:
     def branch(self, cond) -> bool:
         if isinstance(cond, bool):
             return cond
+        raw = cond
         cond = z3.simplify(cond)
         if z3.is_true(cond):
             return True
@@ -132,8 +133,11 @@ class Engine:
         if self.pos < len(self.dec):
             d = self.dec[self.pos]
             self.pos += 1
-            if d['k'] != 'b' or not d['cond'].eq(cond):
+            # z3.simplify orders commutative arguments by AST id, which may differ between executions: the
+            # determinism check compares the unsimplified terms (built by the same operation sequence)
+            if d['k'] != 'b' or not (d['raw'].eq(raw) or d['cond'].eq(cond)):
                 raise RuntimeError('pysym: replay divergence at decision %d: %s vs %s' % (self.pos - 1, d.get('cond'), cond))
+            cond = d['cond']
             if d.get('pending'):
                 # the flipped side: its feasibility (and a model) were established when first met
                 d['pending'] = False
@@ -153,7 +157,7 @@ class Engine:
             raise Inconclusive('unknown at branch')
         self.solver.push()
         self.solver.add(cond if taken else z3.Not(cond))
-        self.dec.append({'k': 'b', 'cond': cond, 'taken': taken, 'other': r == z3.sat, 'omodel': om, 'model': self.model})
+        self.dec.append({'k': 'b', 'cond': cond, 'raw': raw, 'taken': taken, 'other': r == z3.sat, 'omodel': om, 'model': self.model})
         self.pos += 1
         return taken
 
@@ -168,19 +172,20 @@ class Engine:
                 self.solver.add(cond)
                 self.model = None
             return
+        raw = cond
         cond = z3.simplify(cond)
         if z3.is_true(cond):
             return
         if self.pos < len(self.dec):
             d = self.dec[self.pos]
             self.pos += 1
-            if d['k'] != 'a' or not d['cond'].eq(cond):
+            if d['k'] != 'a' or not (d['raw'].eq(raw) or d['cond'].eq(cond)):
                 raise RuntimeError('pysym: replay divergence at assumption %d' % (self.pos - 1))
             return
         m = self._ensure_model()
         self.solver.push()
         self.solver.add(cond)
-        self.dec.append({'k': 'a', 'cond': cond})
+        self.dec.append({'k': 'a', 'cond': cond, 'raw': raw})
         self.pos += 1
         if not z3.is_true(m.eval(cond, model_completion=True)):
             self.model = None
@@ -188,14 +193,16 @@ class Engine:
 
     def choose(self, term) -> int:
         """concretise a BV term: deterministic enumerate-and-fork"""
+        raw = term
         term = z3.simplify(term)
         if z3.is_bv_value(term):
             return term.as_signed_long()
         if self.pos < len(self.dec):
             d = self.dec[self.pos]
             self.pos += 1
-            if d['k'] != 'c' or not d['term'].eq(term):
+            if d['k'] != 'c' or not (d['raw'].eq(raw) or d['term'].eq(term)):
                 raise RuntimeError('pysym: replay divergence at choice %d' % (self.pos - 1))
+            term = d['term']
             if d.get('pending'):
                 d['pending'] = False
                 self.solver.push()
@@ -207,7 +214,7 @@ class Engine:
         v = m.eval(term, model_completion=True).as_signed_long()
         self.solver.push()
         self.solver.add(term == z3.BitVecVal(v, self.W))
-        self.dec.append({'k': 'c', 'term': term, 'val': v, 'tried': [v], 'model': self.model})
+        self.dec.append({'k': 'c', 'term': term, 'raw': raw, 'val': v, 'tried': [v], 'model': self.model})
         self.pos += 1
         return v
 
